@@ -43,6 +43,11 @@ Invocations ==
   \* (/dev/full), a directory.  The source is fine, yet no binary can be left where it was asked for: the run must end in Reject.
   \cup {[tool |-> t, src |-> "accepted", opt |-> o, pos |-> "after", pre |-> e, xv |-> 0, via |-> "const"] :
           t \in Compilers, o \in OptSpell \ {"none"}, e \in Unwritable}
+  \* the environment's scratch directory (TMPDIR) on another file system than the output ("tmpelsewhere"), and the output itself on
+  \* another file system than the working directory ("otherfs"): where a tool keeps its temporary files is its own business - the binary
+  \* still has to arrive where it was asked for
+  \cup {[tool |-> t, src |-> "accepted", opt |-> o, pos |-> "after", pre |-> e, xv |-> 0, via |-> "const"] :
+          t \in Compilers, o \in OptSpell, e \in {"tmpelsewhere", "otherfs"}}
   \* the run options of the simulators (tracing; a cycle limit far above the run's length) in both positions: the status is still the program's
   \* exit value and nothing but the expected files appears
   \cup {[tool |-> t, src |-> "accepted", opt |-> o, pos |-> p, pre |-> "absent", xv |-> x, via |-> "const"] :
@@ -53,7 +58,7 @@ Invocations ==
   \cup {[tool |-> t, src |-> "accepted", opt |-> "none", pos |-> "after", pre |-> "absent", xv |-> x, via |-> "fileread"] : t \in {"xrun", "hexsim"}, x \in {0, 3, 200}}
   \* an image larger than 200000 bytes (but well inside the 200000-word memory)
   \cup {[tool |-> "hexsim", src |-> "accepted", opt |-> "none", pos |-> "after", pre |-> "absent", xv |-> 5, via |-> "big"]}
-WellFormed(i) == ~(i.opt = "none" /\ i.pos = "before")      \* position is meaningless without the option
+WellFormed(i) == ~(i.opt = "none" /\ i.pos = "before") /\ ~(i.opt = "none" /\ i.pre = "otherfs")      \* position is meaningless without the option
 
 Target(i) == CASE i.tool = "xrun" -> "a.bin" [] i.tool = "hexsim" -> "" [] i.opt = "none" -> "a.out" [] OTHER -> "out.bin"
 \* (for the simulators opt is a run option, not an output option)
@@ -70,7 +75,7 @@ Init == /\ inv \in {i \in Invocations : WellFormed(i)}
 Accept == /\ phase = "start" /\ ~Refused(inv)
           /\ phase' = "done" /\ diag' = FALSE
           /\ status' = IF inv.tool \in {"xrun", "hexsim"} THEN Status8(ExitValue(inv)) ELSE 0
-          /\ created' = IF Target(inv) # "" /\ inv.pre = "absent" THEN {Target(inv)} ELSE {}
+          /\ created' = IF Target(inv) # "" /\ inv.pre \in {"absent", "tmpelsewhere", "otherfs"} THEN {Target(inv)} ELSE {}
           /\ modified' = IF Target(inv) # "" /\ inv.pre = "present" THEN {Target(inv)} ELSE {}
           /\ targetIsBinary' = (Target(inv) # "")
           /\ UNCHANGED inv
@@ -93,7 +98,7 @@ Conforms(i, obs) ==
   IF ~Refused(i)
   THEN /\ obs.status = (IF i.tool \in {"xrun", "hexsim"} THEN Status8(ExitValue(i)) ELSE 0)
        /\ ~obs.stderr
-       /\ {obs.created[k] : k \in 1..Len(obs.created)} = (IF Target(i) # "" /\ i.pre = "absent" THEN {Target(i)} ELSE {})
+       /\ {obs.created[k] : k \in 1..Len(obs.created)} = (IF Target(i) # "" /\ i.pre \in {"absent", "tmpelsewhere", "otherfs"} THEN {Target(i)} ELSE {})
        /\ {obs.modified[k] : k \in 1..Len(obs.modified)} = (IF Target(i) # "" /\ i.pre = "present" THEN {Target(i)} ELSE {})
        /\ (Target(i) # "" => obs.targetok)
   ELSE /\ obs.status \in 1..255
